@@ -349,6 +349,70 @@ def gen_forall(rng, allow_empty=False, falsy_lit=False):
     return {"world": world, "vars": vars_, "derived": [], "cond": cond, "select": [["var", "y"]], "mode": mode}
 
 
+def gen_quantifier_nest(rng, reuse=False):
+    """the selected variable y is bound by a first conjunct; below it quantified conditions (with y free) are combined
+    with and / or / not and with plain atoms over y: every operator then needs the FALSE case of a quantified operand
+    for single bindings of y.  Every quantifier has a variable of its own, except that the two sides of an or_ may
+    quantify the same one (the else-if form).  reuse=True: one variable for all quantifiers."""
+    world = G.gen_world(rng)
+    vars_ = gen_vars(rng, world, 2, allow_empty=False)
+    for v in vars_:
+        v["type"] = "P"         # every object is a P: no range is emptied by its type (empty ranges have families of their own)
+    pool = []
+
+    def fresh():
+        if reuse:
+            return "x"
+        name = "x" if not pool else f"x{len(pool) + 1}"
+        pool.append(name)
+        if name != "x":
+            vars_.append(dict(vars_[0], name=name, dom=[rng.randrange(len(world)) for _ in range(rng.choice([1, 2, 2, 3]))]))
+        return name
+
+    def atom_y():
+        return ["cmp", rng.choice(CMP), ["attr", ["var", "y"], rng.choice("ab")], ["lit", rng.randint(0, 2)]]
+
+    def quantified(name=None):
+        name = name or fresh()
+        inner = ["cmp", rng.choice(CMP), ["attr", ["var", "y"], rng.choice("ab")], ["attr", ["var", name], rng.choice("ab")]]
+        return [rng.choice(["exists", "forall"]), name, inner]
+
+    def nest(depth):
+        r = rng.random()
+        if depth == 0 or r < 0.3:
+            return quantified() if rng.random() < 0.7 else atom_y()
+        if r < 0.55:
+            return ["and", nest(depth - 1), nest(depth - 1)]
+        if r < 0.85:
+            if rng.random() < 0.35:
+                name = fresh()
+                return ["or", quantified(name), quantified(name)]
+            return ["or", nest(depth - 1), nest(depth - 1)]
+        return ["not", nest(depth - 1)]
+
+    r0 = rng.random()
+    if r0 < 0.2:
+        # the else-if form over quantified conditions that enumerate y themselves (no binder, see below): a y that the
+        # left side rejects only for a later value of its variable still has to reach the right side
+        name = fresh()
+        body = ["or", quantified(name), quantified(name)]
+        dom = next(v for v in vars_ if v["name"] == name)["dom"]
+        while len(dom) < 2:
+            dom.append(rng.randrange(len(world)))
+    else:
+        body = ["or", nest(1), quantified()] if r0 < 0.45 else nest(2)
+    binder = ["cmp", ">=", ["attr", ["var", "y"], "a"], ["lit", 0]]      # true for every y: it only binds y
+    # sometimes without the binder: the quantified conditions then meet y unbound and enumerate it themselves
+    with_binder = rng.random() < 0.7 and r0 >= 0.2
+    cond = ["and", binder, body] if with_binder else body
+    if with_binder and len(vars_) > 1 and rng.random() < 0.15:
+        # an empty range: the quantified condition then produces nothing at all for the bound y (exists is false,
+        # for_all holds vacuously)
+        rng.choice([v for v in vars_ if v["name"] != "y"])["dom"] = []
+    return {"world": world, "vars": vars_, "derived": [], "cond": cond, "select": [["var", "y"]],
+            "mode": rng.choice(["entity", "set_of"])}
+
+
 def gen_multiselect(rng, bound=True):
     """several selected expressions over the same variable: with a binding condition (bound=True)
     or without any condition mentioning it (the cross-product finding)"""
